@@ -333,6 +333,138 @@ def main():
         else:
             run.oracle_ok("ctx_sequential")
 
+    # ---- INTERLEAVED blocks on DIFFERENT objects, closed out of last-in-first-out order (blocks held open by generators / fixtures,
+    # asyncio tasks, threads): enter A, enter B, edits, exit A, exit B.  The record queue is per OBJECT (`__enter__` creates
+    # `self._last_op_queue`), so each block behaves as if it were alone: model = `withBlock` on each original separately.
+    for i in range(80 if quick else 1200):
+        ops_pool = ['transpose', 'permute', 'squeeze', 'unsqueeze', 'flatten', 'unflatten', 'view', 'flatten_keys', 'unflatten_keys', 'lock_', 'unlock_']
+        n1, n2 = rng.choice(ops_pool), rng.choice(ops_pool)
+        st1 = L.gen_state(rng, for_op=n1); st2 = L.gen_state(rng, for_op=n2)
+        op1 = L.gen_canonical(rng, st1, n1); sp1 = rng.choice(L.spellings(op1, st1))
+        op2 = L.gen_canonical(rng, st2, n2); sp2 = rng.choice(L.spellings(op2, st2))
+        def _edits(st, op):
+            if st[3] or op[0] == 'lock_':
+                return rng.choice([[], [('value',)]])
+            return rng.choice([[], [('value',)], [('add', ('z',))], [('swap',)], [('rebind', 'new')]])
+        e1, e2 = _edits(st1, op1), _edits(st2, op2)
+        order = rng.choice(['a-first', 'a-first', 'b-first'])       # which block closes first (b-first = properly nested)
+        case = {'op1': list(op1), 'sp1': [list(sp1[0]), sp1[1]], 'edits1': [list(e) for e in e1], 'state1': L.enc_state(st1),
+                'op2': list(op2), 'sp2': [list(sp2[0]), sp2[1]], 'edits2': [list(e) for e in e2], 'state2': L.enc_state(st2), 'closes_first': order}
+        run.case(json.dumps(case, default=str))
+        models = []
+        for st, op, sp, ed in ((st1, op1, sp1, e1), (st2, op2, sp2, e2)):
+            m = parse_sx(drv.ask(model_lines(st, op[0], sp[0], sp[1], ed)))
+            models.append(['err', m[1]] if m[0] == 'err' else ['ok', L.dec_state(m[1])])
+        if any(m[0] == 'err' for m in models):
+            continue        # calls the model rejects are the business of the with:* streams
+        ta, tb = L.build(st1), L.build(st2)
+        ra, rb = L.build(st1), L.build(st2)      # references: each block alone
+        try:
+            with L.time_limit(30.0):
+                cma = L.apply_spelled(ta, op1[0], *sp1); cmb = L.apply_spelled(tb, op2[0], *sp2)
+                ya = cma.__enter__(); yb = cmb.__enter__()
+                for j, e in enumerate(e1):
+                    L.do_edit(ya, e, j)
+                for j, e in enumerate(e2):
+                    L.do_edit(yb, e, j)
+                if order == 'a-first':
+                    cma.__exit__(None, None, None); cmb.__exit__(None, None, None)
+                else:
+                    cmb.__exit__(None, None, None); cma.__exit__(None, None, None)
+                with L.apply_spelled(ra, op1[0], *sp1) as y:
+                    for j, e in enumerate(e1):
+                        L.do_edit(y, e, j)
+                with L.apply_spelled(rb, op2[0], *sp2) as y:
+                    for j, e in enumerate(e2):
+                        L.do_edit(y, e, j)
+        except Exception as e:  # noqa: BLE001
+            L.slow_is_infra(e)
+            run.oracle_fail('ctx_interleaved', case, f'interleaved blocks on two different tensordicts raised {type(e).__name__}: {str(e)[:140]}',
+                            f'interleaved:raises:{L.err_class(e)}')
+            continue
+        run.corr('interleaved', case, ['ok', L.meta(ta), L.meta(tb)], ['ok', models[0][1], models[1][1]])
+        # the same program on the heap-of-objects model (one deque per object; Props.C17.interleaved_is_two_blocks)
+        exits = '(exit 2) (exit 3)' if order == 'a-first' else '(exit 3) (exit 2)'
+        mw = parse_sx(drv.ask(f"(c17.world (origs {L.enc_state(st1)} {L.enc_state(st2)}) (steps (call 0 {op1[0]} {L.enc_call(*sp1)}) "
+                              f"(call 1 {op2[0]} {L.enc_call(*sp2)}) (enter 2) (enter 3) (edits 2 {L.enc_edits(e1)[7:-1]}) (edits 3 {L.enc_edits(e2)[7:-1]}) {exits}))"))
+        world = ['err', mw[1]] if mw[0] == 'err' else ['ok', L.dec_state(mw[1]), L.dec_state(mw[2])]
+        run.corr('interleaved:world', case, ['ok', L.meta(ta), L.meta(tb)], world)
+        bad = L.same_td(ta, ra) or L.same_td(tb, rb)
+        if bad:
+            run.oracle_fail('ctx_interleaved', case, f'a block interleaved with a block on ANOTHER tensordict does not behave as when it is alone: {bad}',
+                            f'interleaved:{op1[0]}:{op2[0]}')
+        else:
+            run.oracle_ok('ctx_interleaved')
+
+    # ---- two blocks on the SAME original, each on its own yielded object, closed in either order (manual __enter__/__exit__, ExitStack):
+    # the footprints overlap (both write back to the original), so the blocks do not commute in general; the heap model says what
+    # the original is after both exits (`c17.world`), the oracle asks for what both orders must agree on
+    for i in range(60 if quick else 900):
+        ops_pool = ['transpose', 'permute', 'squeeze', 'unsqueeze', 'flatten', 'unflatten', 'view', 'flatten_keys', 'unflatten_keys', 'lock_', 'unlock_']
+        n1, n2 = rng.choice(ops_pool), rng.choice(ops_pool)
+        st = L.gen_state(rng, for_op=rng.choice([n1, n2]))
+        try:
+            op1 = L.gen_canonical(rng, st, n1); sp1 = rng.choice(L.spellings(op1, st))
+            op2 = L.gen_canonical(rng, st, n2); sp2 = rng.choice(L.spellings(op2, st))
+        except Exception:  # noqa: BLE001  (the state drawn for one op does not admit the other)
+            continue
+        lockish = st[3] or 'lock_' in (n1, n2) or 'unlock_' in (n1, n2)
+        e1 = rng.choice([[], [('value',)]]) if lockish else rng.choice([[], [('value',)], [('add', ('z',))]])
+        e2 = rng.choice([[], [('value',)]]) if lockish else rng.choice([[], [('value',)], [('add', ('w',))]])
+        order = rng.choice(['a-first', 'b-first'])
+        case = {'same_original': True, 'op1': list(op1), 'sp1': [list(sp1[0]), sp1[1]], 'edits1': [list(e) for e in e1], 'op2': list(op2),
+                'sp2': [list(sp2[0]), sp2[1]], 'edits2': [list(e) for e in e2], 'state': L.enc_state(st), 'closes_first': order}
+        run.case(json.dumps(case, default=str))
+        exits = '(exit 1) (exit 2)' if order == 'a-first' else '(exit 2) (exit 1)'
+        mw = parse_sx(drv.ask(f"(c17.world (origs {L.enc_state(st)}) (steps (call 0 {op1[0]} {L.enc_call(*sp1)}) "
+                              f"(call 0 {op2[0]} {L.enc_call(*sp2)}) (enter 1) (enter 2) (edits 1 {L.enc_edits(e1)[7:-1]}) (edits 2 {L.enc_edits(e2)[7:-1]}) {exits}))"))
+        world = ['err', mw[1]] if mw[0] == 'err' else ['ok', L.dec_state(mw[1])]
+        td = L.build(st)
+        before = td.clone()
+        try:
+            with L.time_limit(30.0):
+                cma = L.apply_spelled(td, op1[0], *sp1); cmb = L.apply_spelled(td, op2[0], *sp2)
+                ya = cma.__enter__(); yb = cmb.__enter__()
+                for j, e in enumerate(e1):
+                    L.do_edit(ya, e, j)
+                for j, e in enumerate(e2):
+                    L.do_edit(yb, e, j + 7)
+                if order == 'a-first':
+                    cma.__exit__(None, None, None); cmb.__exit__(None, None, None)
+                else:
+                    cmb.__exit__(None, None, None); cma.__exit__(None, None, None)
+            real = ['ok', L.meta(td)]
+        except Exception as e:  # noqa: BLE001
+            L.slow_is_infra(e)
+            real = ['err', L.err_class(e)]
+        run.count('same_original.outcome', real[0] if real[0] == 'ok' else f'err:{real[1]}')
+        run.corr('interleaved:same-original', case, real, world)
+        if real[0] == 'ok' and world[0] == 'ok':
+            # what every order must give: batch size and names of the original as before; the keys added in either block are there
+            m = L.meta(td); mb = L.meta(before)
+            want_keys = set(map(tuple, mb[2])) | ({('z',)} if ('add', ('z',)) in e1 else set()) | ({('w',)} if ('add', ('w',)) in e2 else set())
+            keyops = {'flatten_keys', 'unflatten_keys'} & {n1, n2}
+            if m[0] != mb[0] or m[1] != mb[1] or (not keyops and set(map(tuple, m[2])) != want_keys):
+                run.oracle_fail('ctx_same_original', case, f'after two blocks on the same original: batch/names/keys {m[:3]} (before: {mb[:3]})', f'same-original:{op1[0]}:{op2[0]}')
+            else:
+                run.oracle_ok('ctx_same_original')
+
+    # ---- to_module as a context manager (oracle only): module zoo x inplace x locked x spelling x edit
+    import c17_tomodule as TM
+    tm_cases = [(k, ip, lk, sp, ed) for k in TM.KINDS for ip in (None, False, True, 'state_dict') for lk in (False, True)
+                for sp in ('pos', 'kw') for ed in ('none', 'inplace', 'forward')]
+    if quick:
+        tm_cases = rng.sample(tm_cases, 90)
+    for (k, ip, lk, sp, ed) in tm_cases:
+        case = {'module': k, 'inplace': ip, 'locked': lk, 'spelling': sp, 'edit': ed}
+        run.case(json.dumps(case))
+        bad = TM.run_case(k, ip, lk, sp, ed)
+        run.count('to_module.outcome', 'ok' if bad is None else bad[0])
+        if bad is None:
+            run.oracle_ok('ctx_to_module')
+        else:
+            run.oracle_fail('ctx_to_module', case, bad[1], f'to_module:{bad[0]}')
+
     # ---- the original is a temporary (`with make_td().transpose(0, 1) as y:`): it is gone when the block exits; there is nothing to
     # write back to and the exit must simply return (the yielded object keeps the edits)
     import gc
